@@ -549,8 +549,16 @@ func genInclude(rt *rapid.T, p *placer) int {
 				txt += "-r " + rel + "\n"
 			}
 		}
-		txt += fmt.Sprintf("incpkg%d==1.%d\n", k, k)
-		src := Src{Text: txt, Fix: fix(fmt.Sprintf("inc.f%d", k+1))}
+		// wave 8 (C02-w8-1): an included file that lists no package itself (only -r lines), so a
+		// cycle behind the root whose members yield nothing is reachable
+		only := txt != "" && chance(rt, 35, fmt.Sprintf("inc.%d.only", k))
+		if !only {
+			txt += fmt.Sprintf("incpkg%d==1.%d\n", k, k)
+		}
+		src := Src{Text: txt}
+		if !only {
+			src.Fix = fix(fmt.Sprintf("inc.f%d", k+1))
+		}
 		if chance(rt, 33, fmt.Sprintf("inc.%d.long", k)) {
 			src.Pad = oneOf(rt, []int{65536, 65537, 70000, 140000}, fmt.Sprintf("inc.%d.pad", k))
 		}
